@@ -50,6 +50,10 @@ type scenario struct {
 	table     []float64
 }
 
+// judgeExactTies: lattice samples that equal the threshold exactly (reference and sampled value both)
+// are classified as outside and the case is judged; false restores "any sample within 1e-9 is skipped".
+const judgeExactTies = true
+
 var adders = []string{"AddField", "AddFieldParallel", "AddFieldParallel2"}
 
 var cpuList = []float64{1.5, 2, 2.5, 3, 4, 5, 6, 7.5, 8, 10, 12}
@@ -427,6 +431,7 @@ func execute(c *run.Ctx, sc *scenario) run.Result {
 	mismatch, firstMis := 0, ""
 	unsampledInside, firstUns := 0, ""
 	outsideDomain, firstOutside := 0, ""
+	ties := 0
 	for z := g.lo[2]; z < g.lo[2]+g.n[2]; z++ {
 		for y := g.lo[1]; y < g.lo[1]+g.n[1]; y++ {
 			for x := g.lo[0]; x < g.lo[0]+g.n[0]; x++ {
@@ -441,8 +446,17 @@ func execute(c *run.Ctx, sc *scenario) run.Result {
 				p := vec{float64(x) / sc.CPU, float64(y) / sc.CPU, float64(z) / sc.CPU}
 				fv := refField(p)
 				if math.Abs(fv-sc.Cut) < 1e-9 {
-					res.Inconclusive = fmt.Sprintf("degenerate (lattice sample within 1e-9 of the threshold): point %v, classification would depend on rounding", q)
-					return res
+					// An EXACT tie on both sides (the reference and the value the canvas received are both
+					// bit-equal to the threshold) is not ambiguous: the property's region is "below the
+					// threshold", so the point is outside. Any other near-tie would be classified by rounding.
+					// Not for Field.March: it evaluates every lattice point up to 8 times at positions computed
+					// per cell (v + 1/cpu), so "the value it sampled there" is not one number.
+					if judgeExactTies && sc.API != "Field.March" && fv == sc.Cut && (!sampled || val == sc.Cut) {
+						ties++
+					} else {
+						res.Inconclusive = fmt.Sprintf("degenerate (lattice sample within 1e-9 of the threshold, not an exact tie on both sides): point %v reference %v sampled %v, classification would depend on rounding", q, fv, val)
+						return res
+					}
 				}
 				g.in[i] = fv < sc.Cut
 				if sampled && (val < sc.Cut) != g.in[i] {
@@ -521,6 +535,10 @@ func execute(c *run.Ctx, sc *scenario) run.Result {
 		}
 	}
 	ob := judge(&res, sub, md)
+	if ties > 0 && res.Inconclusive == "" {
+		res.Count("exact_tie_lattice_points_judged", int64(ties))
+		res.Count("cases_with_exact_ties_judged", 1)
+	}
 
 	// evidence
 	seam := st.SeamCells[1] + st.SeamCells[2] + st.SeamCells[3]
@@ -825,7 +843,7 @@ func Spec() *run.Spec {
 			"closedness is judged on the vertex ids polyform returns (its weld is part of the behaviour); positions are merged by the oracle only to tell an unwelded seam from a hole",
 			"'within one cell of the true isosurface' is checked as: some lattice point below and some lattice point not below the threshold lie within one cell (+0.001*sqrt(3) world units of weld displacement) of the vertex - a sign change of a continuous field inside that ball - and, for analytic unions, |f(v)-c| <= L*h for the harness's own L-Lipschitz distance field",
 			"additionally every lattice edge whose ends are on different sides must carry a mesh vertex and the enclosed volume must lie between the number of cells entirely below the threshold and that number plus the straddling cells (a closed surface that separates the samples); both follow for any correct marching and need no knowledge of the table",
-			"stated skip rules (inconclusive, never held): a lattice sample within 1e-9 of the threshold (classification would depend on rounding); a surface feature thinner than the 0.001 weld (a lattice point with two sign-changing edges that no mesh edge can join - towards both neighbours of one axis, or across an ambiguous cell face - whose interpolated crossings can round to the same 3-decimal weld cell; or two lattice points of one cell that each collect two or more crossings in one weld cell). Safety net, also derived from the sampled values: an outcome whose ONLY anomaly is edges used by more than one face with balanced counts (no unmatched edge), every such edge having an endpoint within the weld distance of a lattice point whose sampled value puts a crossing within the weld distance of it, is reported as inconclusive \"degenerate (weld pinch)\"; anything with an unmatched edge stays a violation. The DESIGN's 2% rule was narrowed to these: a 2% band around lattice corners is hit by practically every analytic surface, and polyform's weld drops the faces it collapses, so ordinary merges near a lattice corner leave the surface closed (they are counted, not skipped)",
+			"stated skip rules (inconclusive, never held): a lattice sample within 1e-9 of the threshold unless it is an EXACT tie on both sides - the harness's reference value and the value the canvas received are both bit-equal to the threshold; such a point is not below the threshold, is classified as outside (the marcher's own test is the strict `<`) and the case is judged (counted: exact_tie_lattice_points_judged) - every other near-tie would be classified by rounding; a surface feature thinner than the 0.001 weld (a lattice point with two sign-changing edges that no mesh edge can join - towards both neighbours of one axis, or across an ambiguous cell face - whose interpolated crossings can round to the same 3-decimal weld cell; or two lattice points of one cell that each collect two or more crossings in one weld cell). Safety net, also derived from the sampled values: an outcome whose ONLY anomaly is edges used by more than one face with balanced counts (no unmatched edge), every such edge having an endpoint within the weld distance of a lattice point whose sampled value puts a crossing within the weld distance of it, is reported as inconclusive \"degenerate (weld pinch)\"; anything with an unmatched edge stays a violation. The DESIGN's 2% rule was narrowed to these: a 2% band around lattice corners is hit by practically every analytic surface, and polyform's weld drops the faces it collapses, so ordinary merges near a lattice corner leave the surface closed (they are counted, not skipped)",
 			"resolutions above 12 cubes per unit (0.001 weld comparable to the cell) are out of reach",
 		},
 		MinNontrivial: map[string]int{"quick": 40, "thorough": 600},
@@ -834,7 +852,7 @@ func Spec() *run.Spec {
 			"active_cells_on_block_face": 1000, "active_cells_on_block_edge": 50, "active_cells_on_block_corner": 5,
 			"cases_with_negative_block_coordinates": 20, "long_capsules_over_3_or_more_blocks": 1, "entry_points": 4, "field_builders": 3,
 			"adders": 3, "adder_x_builder_x_march": 20, "parallel_adder_cases_multiblock_combinefields_2plus_shapes": 5, "parallel_adder_cases_multiblock_sdf_union_2plus_shapes": 5,
-			"unions_whose_source_slice_was_reused_before_sampling": 15, "caller_slice_reuse": 8, "parallel_fill_cases": 16, "directed_boundary_cases": 60, "boundary_placements": 60, "histories": 12, "history_fields_combined_from_a_reused_slice": 6, "history_marches_after_a_later_add_allocated_new_blocks": 12, "history_marches_compared_with_a_fresh_canvas": 12, "directed_seam_cases": 10, "cases_with_seam_weld_trigger": 10, "fieldmarch_cube_configurations": 250,
+			"unions_whose_source_slice_was_reused_before_sampling": 15, "caller_slice_reuse": 8, "directed_tie_cases": 40, "cases_with_exact_ties_judged": 20, "exact_tie_lattice_points_judged": 2000, "parallel_fill_cases": 16, "directed_boundary_cases": 60, "boundary_placements": 60, "histories": 12, "history_fields_combined_from_a_reused_slice": 6, "history_marches_after_a_later_add_allocated_new_blocks": 12, "history_marches_compared_with_a_fresh_canvas": 12, "directed_seam_cases": 10, "cases_with_seam_weld_trigger": 10, "fieldmarch_cube_configurations": 250,
 		},
 		Phases: []run.Phase{
 			{Name: "analytic", Cases: func(t string) int {
@@ -855,6 +873,12 @@ func Spec() *run.Spec {
 				}
 				return 90
 			}, Run: boundaryCase, Batch: 3, CPUBudgetS: 120},
+			{Name: "ties", Cases: func(t string) int {
+				if t == "thorough" {
+					return 640
+				}
+				return 64
+			}, Run: tieCase, Batch: 3, CPUBudgetS: 120},
 			{Name: "histories", Cases: func(t string) int {
 				if t == "thorough" {
 					return 300
